@@ -168,11 +168,15 @@ for N, ids, tier in ((3, [0, 1, 2], "quick"), (3, [0, 1, 2, 3], "thorough")):
         else:
             parts = [([s], [0, 1, 2]) for s in ids]
         for pi, (st, dl) in enumerate(parts):
-            REG.add("conf_N%d_ids%s_l%d%d_p%d" % (N, "".join(map(str, ids)), fl[0], fl[1], pi), T_conf, body,
-                    cfg=dict(N=N, ids=ids, fixlabs=list(fl), starts=st, deltas=dl, types=TYPES, sliding_types=3 if tier == "quick" else 5),
+          for pre in ([None] if tier == "quick" else [[a, b] for a in (False, True) for b in (False, True)]):
+            REG.add("conf_N%d_ids%s_l%d%d_p%d%s" % (N, "".join(map(str, ids)), fl[0], fl[1], pi,
+                                                    "" if pre is None else "_b%d%d" % (pre[0], pre[1])), T_conf, body,
+                    cfg=dict(N=N, ids=ids, fixlabs=list(fl), starts=st, deltas=dl, types=TYPES, sliding_types=3 if tier == "quick" else 5,
+                             prefix=pre),
                     tier=tier if (tier == "thorough" or (fl[0] and pi < 3)) else "thorough", timeout=1500 if tier == "quick" else 6000,
                     tags=["dense"] + (["homogeneous"] if fl[0] == fl[1] else []), twins=1,
-                    bounds="every DynGraph on %d nodes over snapshot ids %s (one presence bit per pair and id: exhaustive), every 2-valued "
+                    bounds=("" if pre is None else "partition with the first two presence bits fixed to %s: " % (pre,)) +
+                           "every DynGraph on %d nodes over snapshot ids %s (one presence bit per pair and id: exhaustive), every 2-valued "
                            "labelling with the first two labels fixed to %s; start in %s, delta in %s, alphas %s, all five path types" %
                            (N, ids, fl, st, dl, ALPHAS),
                     what="delta_conformity: None iff the window has no snapshot, keys = alphas x {'lab'}, node set = nodes present at "
